@@ -5,6 +5,11 @@ from props import *
 
 NEEDS_RACE = True
 
+# C02b: the constructor table (which operator hands a locking subscriber to its sources) is the premise of the named ordering
+# `sameSequentialSource` for every single-producer operator that sits BELOW a multi-source one: its per-subscription state is
+# touched by one goroutine at a time only because the operator above serialises its sources
+LEAN_MODULES = ['C13', 'C02b']
+
 # harness generator kinds whose cases are run, one scenario per child process, in the binary built
 # with -race. Other slices append their own kinds here (their scenarios must create every goroutine
 # inside the scenario function and keep no plain shared state of their own).
@@ -345,7 +350,22 @@ def check(ctx):
         ],
         extra={'race_runs': {'scenarios': len(results), 'reports_on_known_locations': {k: len(v) for k, v in reproduced.items()}, 'consequences_of_racy_publication': {k: len(v) for k, v in consequences.items()}, 'unknown_reports': unknown, 'timeouts': timeouts},
                'locksets': {'locations': len(tbl['Locs']), 'rows': nrows}},
-        search=search)
+        search=combine_search(search, ctor_search))
+
+
+def ctor_search(ctx, out):
+    """RoProps/C02b no longer decides the regenerated constructor table: a multi-source operator no longer serialises its sources, so the
+    state of the single-producer operators below it is touched from several goroutines. A race report of this run is the failing input."""
+    rows = bad_rows('C02')
+    if not rows:
+        return False
+    names = ', '.join(sorted({n for n, _ in rows}))
+    head = ('proof obligation over the regenerated table RoGen.Catalogue no longer holds (RoProps/C02b, premise of the ordering sameSequentialSource below a multi-source operator): '
+            + '; '.join(f'{n}: {why}' for n, why in rows) + '\n')
+    hit = [v for v in ctx.violations if 'data race' in v[0] or 'race detector' in v[0]]
+    ctx.violation(f'C13: {names} no longer hands a locking subscriber to its sources: the state of the operators below it is shared between goroutines' +
+                  (' (race reports of this run: see the other violations)' if hit else ''), head, no_input=not hit)
+    return True
 
 
 def search(ctx, out):
